@@ -104,6 +104,7 @@ func runC05(c *Ctx) {
 		"C05.1 the read-write transaction commits only below the no-errors edge of the dispatch result, aborts by defer, and commits on every path that returns results",
 		"C05.2 nothing reachable from the dispatch loop opens, commits or aborts a transaction (including read transactions: every read sees the transaction's own writes), and every memdb operation there goes through a transaction handed down as a parameter",
 		"C05.3 nothing reachable from the dispatch loop has effects outside the transaction except through tx.Defer (tombstone GC hint) — no goroutines, channel sends or event publication; the lock-delay timer is the one listed exception",
+		"C05.8 no map or slice that is part of a stored row (reached from a memdb read result through field selections or a shallow struct copy, without a Clone/DeepCopy in between) is mutated in place in package state: such a change happens outside the copy-on-write transaction and survives an abort",
 		"C05.4 in txn.Commit usage accounting and event generation can fail only before the memdb commit; events published are the ones generated from this transaction's change set; memdb commit precedes publish; both under commitLock",
 		"C05.5 the read-only transaction path hands a read transaction to the dispatch loop",
 		"C05.6 a conditional verb that reports not-applied is turned into an error in every verb handler",
@@ -693,5 +694,99 @@ func checkVerbCoverage(c *Ctx, reach map[*ssa.Function][]string) {
 		}
 	}
 	r.Floor("C05.7", 25)
+	checkRowsNotMutatedInPlace(c)
 	_ = n
+}
+
+// C05.8
+func checkRowsNotMutatedInPlace(c *Ctx) {
+	p, r := c.P, c.R
+	isCopyCall := func(v ssa.Value) bool {
+		call, ok := v.(*ssa.Call)
+		if !ok {
+			return false
+		}
+		switch core.MethodNameOf(&call.Call) {
+		case "Clone", "DeepCopy", "PartialClone", "Copy", "clone":
+			return true
+		}
+		if g := call.Call.StaticCallee(); g != nil && (strings.Contains(g.Name(), "Clone") || strings.Contains(g.Name(), "Copy")) {
+			return true
+		}
+		return false
+	}
+	// where does the container come from?
+	fromRow := func(v ssa.Value) (string, bool) {
+		for _, leaf := range core.Leaves(v, core.SliceOpts{StopAt: isCopyCall}) {
+			call, ok := leaf.(*ssa.Call)
+			if !ok {
+				continue
+			}
+			if isCopyCall(call) {
+				continue
+			}
+			if op := core.AsMemdbOp(call); op != nil && op.IsRead() {
+				t := op.Table
+				if !op.TableKnown {
+					t = "?"
+				}
+				return "a " + op.Op + " on table " + t, true
+			}
+			if call.Call.IsInvoke() && call.Call.Method.Name() == "Next" && strings.Contains(core.ShortType(call.Call.Value.Type()), "ResultIterator") {
+				return "a row iterator", true
+			}
+		}
+		return "", false
+	}
+	n, nFns := 0, 0
+	perFn := map[string]int{}
+	for _, f := range p.SrcFuncs(statePkg) {
+		nFns++
+		for _, b := range f.Blocks {
+			for _, in := range b.Instrs {
+				var container ssa.Value
+				what := ""
+				switch x := in.(type) {
+				case *ssa.MapUpdate:
+					container, what = x.Map, "map update"
+				case *ssa.Call:
+					if bi, ok := x.Call.Value.(*ssa.Builtin); ok && bi.Name() == "delete" {
+						container, what = x.Call.Args[0], "delete from map"
+					}
+				case *ssa.Store:
+					if ia, ok := x.Addr.(*ssa.IndexAddr); ok {
+						if _, isSlice := ia.X.Type().Underlying().(*types.Slice); isSlice {
+							container, what = ia.X, "slice element store"
+						}
+					}
+				}
+				if container == nil {
+					continue
+				}
+				// containers made here are fine
+				switch container.(type) {
+				case *ssa.MakeMap, *ssa.MakeSlice:
+					continue
+				}
+				src, ok := fromRow(container)
+				if !ok {
+					continue
+				}
+				n++
+				base := core.FuncName(f) + "/" + strings.Join(core.AccessOf(container).Fields, ".")
+				perFn[base]++
+				construct := base
+				if perFn[base] > 1 {
+					construct = fmt.Sprintf("%s#%d", base, perFn[base])
+				}
+				r.Violate("C05.8", construct, p.Pos(in.Pos()), fmt.Sprintf("%s on a container that belongs to a stored row (reached from %s without a deep copy; a struct copy shares its maps and slices): the committed row changes outside the transaction, so an aborted transaction — a later verb of the same Txn failing — leaves the change behind", what, src))
+			}
+		}
+	}
+	if n == 0 {
+		r.Hold("C05.8", "state", "", fmt.Sprintf("%d functions of package state: no in-place mutation of a container reached from a stored row", nFns))
+	}
+	if nFns < 800 {
+		r.MissingInstance("C05.8", "<functions>", fmt.Sprintf("only %d functions", nFns))
+	}
 }
